@@ -110,5 +110,14 @@ def run(r):
         r.case(route, [items, seed]); check(r, items, route, seed)
 
 
+    a, b = rseq([['on', 60, 0, 64], 24, ['off', 60, 0]]), rseq([['on', 62, 0, 64], 24, ['off', 62, 0]])
+    a.concatenate([b])
+    r.case("d8_probe", ["concatenate"])
+    if {id(m) for m in a.rel._messages} & {id(m) for m in b.rel._messages}:
+        r.fail("d8_probe", {"probe": "a.concatenate([b])"}, "a holds b's message objects", klass="D8-concatenate-shares-messages")
+
+
 def replay(r, chk, inp):
+    if chk == "d8_probe":
+        return
     check(r, inp["items"], inp["route"], inp["seed"])
